@@ -168,6 +168,10 @@ fn boundary_family() -> Vec<Scenario> {
             Step::Commit(commit_of(vec![(vec![1], 0, reset(&[]))])),
             Step::Commit(commit_of(vec![(vec![1], 0, delta(&[(k(2), Some(vec![8]))]))])),
             Step::ReadAll, Step::Merge, Step::ReadAll]),
+        // a staged partition that ends up empty is still yielded by list_partition_keys (C14_list_partition_keys_equality_refuted)
+        ("bf_partition_keys_staged_empty", vec![
+            Step::Commit(commit_of(vec![(vec![1, 0], 0, reset(&[])), (vec![1], 1, delta(&[(k(2), None)]))])),
+            Step::ReadAll, Step::Merge, Step::ReadAll]),
         // merge of an empty overlay, and merge twice
         ("bf_merge_empty_overlay", vec![Step::Merge, Step::ReadAll, Step::Merge, Step::ReadAll]),
         // merge in the middle, then deltas on top of the merged root
@@ -243,129 +247,81 @@ fn main() {
         for c in &sc.classes {
             report.count(c);
         }
-        let u = &sc.u;
         let mut base = InMemorySubstateDatabase::standard();
-        let mut direct = InMemorySubstateDatabase::standard();
-        let mut replay = Replay::default();
+        let mut st = RunState::default();
         for c in &sc.base {
             base.commit(c);
-            direct.commit(c);
-            replay.commit(c);
+            st.direct.commit(c);
+            st.replay.commit(c);
+            st.canon.push_str(&updates_coq(c));
         }
-        let mut overlay = SubstateDatabaseOverlay::new_owned(base);
-        let pks = u.partition_keys();
-        let cursors = u.cursors();
-        let mut ops: Vec<String> = Vec::new();
-        let mut canon = String::new();
-        for c in &sc.base {
-            canon.push_str(&updates_coq(c));
-        }
-        canon.push('|');
-        let mut failed: Failed = None;
-        let mut staged: std::collections::BTreeSet<(Vec<u8>, u8)> = Default::default();
-        let mut saw_reset = false;
-        let mut saw_delta_on_staged = false;
-        let mut n_reads = 0u64;
-        let mut n_lists_nonempty = 0u64;
-        for step in &sc.steps {
-            match step {
-                Step::Commit(c) => {
-                    for (nk, nu) in &c.node_updates {
-                        for (pn, pu) in &nu.partition_updates {
-                            let key = (nk.clone(), *pn);
-                            match pu {
-                                PartitionDatabaseUpdates::Reset { .. } => saw_reset = true,
-                                PartitionDatabaseUpdates::Delta { .. } => {
-                                    if staged.contains(&key) {
-                                        saw_delta_on_staged = true;
-                                    }
-                                }
-                            }
-                            staged.insert(key);
-                        }
-                    }
-                    let st = stats(c);
-                    report.count_n("partition_deltas", st.deltas);
-                    report.count_n("partition_resets", st.resets);
-                    report.count_n("empty_resets", st.empty_resets);
-                    report.count_n("substate_deletes", st.deletes);
-                    overlay.commit(c);
-                    direct.commit(c);
-                    replay.commit(c);
-                    ops.push(format!("OCommit {}", updates_coq(c)));
-                    canon.push_str(&updates_coq(c));
-                }
-                Step::Get(pk, sk) => {
-                    read_get(&overlay, &direct, &replay, &mut ops, pk, sk, &mut failed);
-                    n_reads += 1;
-                }
-                Step::List(pk, cur) => {
-                    if read_list(&overlay, &direct, &replay, &mut ops, pk, cur, &mut failed) {
-                        n_lists_nonempty += 1;
-                    }
-                    n_reads += 1;
-                }
-                Step::ReadAll => {
-                    for pk in &pks {
-                        for sk in &u.sort_keys {
-                            read_get(&overlay, &direct, &replay, &mut ops, pk, sk, &mut failed);
-                            n_reads += 1;
-                        }
-                        for cur in &cursors {
-                            if read_list(&overlay, &direct, &replay, &mut ops, pk, cur, &mut failed) {
-                                n_lists_nonempty += 1;
-                            }
-                            n_reads += 1;
-                        }
-                    }
-                    // informational (outside the property statement): the overlay's list_partition_keys also
-                    // yields staged partitions that hold no substate once the commits are applied
-                    let mut a: Vec<DbPartitionKey> = overlay.list_partition_keys().collect();
-                    a.sort();
-                    a.dedup();
-                    let b: Vec<DbPartitionKey> = direct.list_partition_keys().collect();
-                    report.count(if a == b { "info_overlay_partition_key_set_equal" } else { "info_overlay_partition_key_set_has_empty_staged_partitions" });
-                }
-                Step::Merge => {
-                    overlay.commit_overlay_into_root_store();
-                    staged.clear();
-                    let dump = dump_root(&overlay);
-                    check_dump(&dump, &direct, &replay, &mut failed);
-                    ops.push(format!("OMerge {}", dump_coq(&dump)));
-                    canon.push_str("|M|");
-                    report.count("merges");
-                }
+        st.canon.push('|');
+        st.root_copy = Imd2(base.clone());
+        // constructors: owned (even cases) / mergeable borrow (odd cases)
+        if i % 2 == 0 {
+            let mut overlay = SubstateDatabaseOverlay::new_owned(base);
+            run_steps(&mut overlay, &sc, &mut st, &mut report);
+            let (root_db, left) = overlay.deconstruct();
+            final_root_check(&root_db, &left, &mut st);
+            report.count("constructor_owned");
+        } else {
+            {
+                let mut overlay = SubstateDatabaseOverlay::new_mergeable(&mut base);
+                run_steps(&mut overlay, &sc, &mut st, &mut report);
+                let left = overlay.into_database_updates();
+                st.left = Some(left);
             }
+            let left = st.left.take().unwrap();
+            final_root_check(&base, &left, &mut st);
+            report.count("constructor_mergeable");
         }
-        let (root_db, left) = overlay.deconstruct();
-        if matches!(sc.steps.last(), Some(Step::Merge)) || staged.is_empty() {
-            // nothing staged any more: the root itself must be the base with the commits applied
-            if left.node_updates.is_empty() && root_db != direct && failed.is_none() {
-                failed = Some(("merging the overlay into the base does not yield the base with the commits applied".into(), json!({})));
-            }
-        }
-        report.count_n("reads", n_reads);
-        report.count_n("nonempty_listings", n_lists_nonempty);
+        report.count_n("reads", st.n_reads);
+        report.count_n("nonempty_listings", st.n_lists_nonempty);
         if i >= n_family {
             report.count("random_histories");
-            if saw_reset {
+            if st.saw_reset {
                 report.count("histories_with_reset");
             }
-            if saw_delta_on_staged {
+            if st.saw_delta_on_staged {
                 report.count("histories_with_delta_on_staged_partition");
             }
         }
-        report.case(&canon, saw_reset && saw_delta_on_staged);
-        if let Some((what, mut input)) = failed {
+        report.case(&st.canon, st.saw_reset && st.saw_delta_on_staged);
+        if let Some((what, mut input)) = st.failed.take() {
             input["base_commits"] = json!(sc.base.iter().map(updates_coq).collect::<Vec<_>>());
-            input["ops"] = json!(ops.iter().filter(|o| o.starts_with("OCommit") || o.starts_with("OMerge")).collect::<Vec<_>>());
+            input["ops"] = json!(st.ops.iter().filter(|o| o.starts_with("OCommit") || o.starts_with("OMerge")).collect::<Vec<_>>());
             input["classes"] = json!(sc.classes);
             report.oracle_failure(i, "", &what, input);
         }
         if i == 0 || i == n_family {
-            report.sample(json!({"base_commits": sc.base.iter().map(updates_coq).collect::<Vec<_>>(), "first_ops": ops.iter().take(12).collect::<Vec<_>>()}));
+            report.sample(json!({"base_commits": sc.base.iter().map(updates_coq).collect::<Vec<_>>(), "first_ops": st.ops.iter().take(12).collect::<Vec<_>>()}));
         }
-        cw.push(format!("({}, {})", coq_list(sc.base.iter().map(updates_coq)), coq_list(ops.into_iter())));
+        cw.push(format!("({}, {})", coq_list(sc.base.iter().map(updates_coq)), coq_list(st.ops.into_iter())));
+    }
+    // new_unmergeable (shared borrow): same read paths; checked against the direct database only
+    {
+        let sc = &boundary_family()[40];
+        let mut base = InMemorySubstateDatabase::standard();
+        let mut direct = InMemorySubstateDatabase::standard();
+        for c in &sc.base {
+            base.commit(c);
+            direct.commit(c);
+        }
+        let mut overlay = SubstateDatabaseOverlay::new_unmergeable(&base);
+        for s in &sc.steps {
+            if let Step::Commit(c) = s {
+                overlay.commit(c);
+                direct.commit(c);
+            }
+        }
+        for pk in sc.u.partition_keys() {
+            for cur in sc.u.cursors() {
+                if collect_list(&overlay, &pk, &cur) != collect_list(&direct, &pk, &cur) {
+                    report.oracle_failure(0, "", "listing through an unmergeable overlay differs from the database with the commits applied", json!({"pk": pk_coq(&pk)}));
+                }
+            }
+        }
+        report.count("constructor_unmergeable");
     }
     // floors: every class of the deterministic family
     for b in ["bf_base_empty", "bf_base_two", "bf_base_single"] {
@@ -380,7 +336,8 @@ fn main() {
         report.floor(&format!("bf_seq2_{}", p), 48);
     }
     for c in ["bf_merge_after_reads", "bf_node_new_two_partitions", "bf_node_present_partition_new", "bf_two_nodes_prefix_related", "bf_set_delete_set_preexisting",
-              "bf_reset_delta_reset_delta", "bf_merge_empty_overlay", "bf_merge_then_continue", "bf_delete_whole_partition_by_delta"] {
+              "bf_reset_delta_reset_delta", "bf_partition_keys_staged_empty", "constructor_owned", "constructor_mergeable", "constructor_unmergeable",
+              "partition_keys_exact", "partition_keys_with_staged_empty_partitions", "database_updates_observed", "bf_merge_empty_overlay", "bf_merge_then_continue", "bf_delete_whole_partition_by_delta"] {
         report.floor(c, 1);
     }
     let n = args.cases as u64;
@@ -396,32 +353,176 @@ fn main() {
     report.write(&args.out).unwrap();
 }
 
-type Ov = OwnedSubstateDatabaseOverlay<InMemorySubstateDatabase>;
+type Imd = InMemorySubstateDatabase;
 
-fn read_get(overlay: &Ov, direct: &InMemorySubstateDatabase, replay: &Replay, ops: &mut Vec<String>, pk: &DbPartitionKey, sk: &Vec<u8>, failed: &mut Failed) {
-    let got = overlay.get_raw_substate_by_db_key(pk, &DbSortKey(sk.clone()));
-    let want = direct.get_raw_substate_by_db_key(pk, &DbSortKey(sk.clone()));
-    let want2 = replay.get(pk, sk);
-    if (got != want || got != want2) && failed.is_none() {
-        *failed = Some(("get through the overlay differs from the database with the commits applied".into(),
-            json!({"pk": pk_coq(pk), "sk": hex(sk), "overlay": got.as_ref().map(|v| hex(v)), "direct": want.as_ref().map(|v| hex(v)), "replay": want2.as_ref().map(|v| hex(v))})));
-    }
-    ops.push(format!("OGet {} {} {}", pk_coq(pk), cb(sk), coq_option(got.map(|v| cb(&v)))));
+#[derive(Default)]
+struct RunState {
+    direct: Imd2,
+    replay: Replay,
+    root_copy: Imd2,
+    ops: Vec<String>,
+    canon: String,
+    failed: Failed,
+    staged: std::collections::BTreeSet<(Vec<u8>, u8)>,
+    saw_reset: bool,
+    saw_delta_on_staged: bool,
+    n_reads: u64,
+    n_lists_nonempty: u64,
+    left: Option<DatabaseUpdates>,
 }
-fn read_list(overlay: &Ov, direct: &InMemorySubstateDatabase, replay: &Replay, ops: &mut Vec<String>, pk: &DbPartitionKey, cur: &Option<Vec<u8>>, failed: &mut Failed) -> bool {
-    let got = collect_list(overlay, pk, cur);
-    let want = collect_list(direct, pk, cur);
-    let want2 = replay.list(pk, cur);
-    if (got != want || got != want2) && failed.is_none() {
-        *failed = Some(("listing through the overlay differs from the database with the commits applied".into(),
-            json!({"pk": pk_coq(pk), "from": cur.as_ref().map(|k| hex(k)), "overlay": entries_coq(&got), "direct": entries_coq(&want), "replay": entries_coq(&want2)})));
+/// InMemorySubstateDatabase has no Default; wrap it
+struct Imd2(Imd);
+impl Default for Imd2 {
+    fn default() -> Self {
+        Imd2(Imd::standard())
     }
-    ops.push(format!("OList {} {} {}", pk_coq(pk), cursor_coq(cur), entries_coq(&got)));
-    !got.is_empty()
+}
+impl std::ops::Deref for Imd2 {
+    type Target = Imd;
+    fn deref(&self) -> &Imd {
+        &self.0
+    }
+}
+impl std::ops::DerefMut for Imd2 {
+    fn deref_mut(&mut self) -> &mut Imd {
+        &mut self.0
+    }
+}
+impl Imd2 {
+    fn clone_from_db(db: &Imd) -> Imd2 {
+        Imd2(db.clone())
+    }
+}
+
+fn fail(st: &mut RunState, what: &str, v: serde_json::Value) {
+    if st.failed.is_none() {
+        st.failed = Some((what.to_string(), v));
+    }
+}
+
+fn run_steps<S: std::borrow::BorrowMut<Imd>>(overlay: &mut SubstateDatabaseOverlay<S, Imd>, sc: &Scenario, st: &mut RunState, report: &mut Report) {
+    let u = &sc.u;
+    let pks = u.partition_keys();
+    let cursors = u.cursors();
+    for step in &sc.steps {
+        match step {
+            Step::Commit(c) => {
+                for (nk, nu) in &c.node_updates {
+                    for (pn, pu) in &nu.partition_updates {
+                        let key = (nk.clone(), *pn);
+                        match pu {
+                            PartitionDatabaseUpdates::Reset { .. } => st.saw_reset = true,
+                            PartitionDatabaseUpdates::Delta { .. } => {
+                                if st.staged.contains(&key) {
+                                    st.saw_delta_on_staged = true;
+                                }
+                            }
+                        }
+                        st.staged.insert(key);
+                    }
+                }
+                let s = stats(c);
+                report.count_n("partition_deltas", s.deltas);
+                report.count_n("partition_resets", s.resets);
+                report.count_n("empty_resets", s.empty_resets);
+                report.count_n("substate_deletes", s.deletes);
+                overlay.commit(c);
+                st.direct.commit(c);
+                st.replay.commit(c);
+                st.ops.push(format!("OCommit {}", updates_coq(c)));
+                st.canon.push_str(&updates_coq(c));
+            }
+            Step::Get(pk, sk) => {
+                read_get(overlay, st, pk, sk);
+            }
+            Step::List(pk, cur) => {
+                read_list(overlay, st, pk, cur);
+            }
+            Step::ReadAll => {
+                for pk in &pks {
+                    for sk in &u.sort_keys {
+                        read_get(overlay, st, pk, sk);
+                    }
+                    for cur in &cursors {
+                        read_list(overlay, st, pk, cur);
+                    }
+                }
+                // list_partition_keys of the overlay, as yielded.  Proved relation (C14_list_partition_keys):
+                // no duplicates, key order, and the partitions of the database with the commits applied are
+                // exactly the yielded ones whose listing through the overlay is non-empty.
+                let yielded: Vec<DbPartitionKey> = overlay.list_partition_keys().collect();
+                let mut sorted = yielded.clone();
+                sorted.sort();
+                sorted.dedup();
+                let nonempty: Vec<DbPartitionKey> = yielded.iter().filter(|pk| !collect_list(&*overlay, pk, &None).is_empty()).cloned().collect();
+                let want: Vec<DbPartitionKey> = st.direct.list_partition_keys().collect();
+                if sorted != yielded || nonempty != want {
+                    fail(st, "overlay.list_partition_keys is not (ordered, duplicate-free, and a superset whose non-empty members are the partitions of the database with the commits applied)",
+                         json!({"yielded": pks_coq(&yielded), "direct": pks_coq(&want)}));
+                }
+                report.count(if yielded == want { "partition_keys_exact" } else { "partition_keys_with_staged_empty_partitions" });
+                st.ops.push(format!("OParts {}", pks_coq(&yielded)));
+                // database_updates(): committing it to a copy of the root gives the database with the commits applied
+                let du = overlay.database_updates();
+                let mut copy = st.root_copy.0.clone();
+                copy.commit(&du);
+                if copy != st.direct.0 {
+                    fail(st, "root.commit(overlay.database_updates()) differs from the database with the commits applied", json!({"updates": updates_coq(&du)}));
+                }
+                report.count("database_updates_observed");
+                st.ops.push(format!("OUpdates {}", updates_coq(&du)));
+            }
+            Step::Merge => {
+                overlay.commit_overlay_into_root_store();
+                st.staged.clear();
+                st.root_copy = Imd2::clone_from_db(&st.direct.0);
+                let dump = dump_root(overlay);
+                check_dump(&dump, st);
+                st.ops.push(format!("OMerge {}", dump_coq(&dump)));
+                st.canon.push_str("|M|");
+                report.count("merges");
+            }
+        }
+    }
+}
+
+fn final_root_check(root_db: &Imd, left: &DatabaseUpdates, st: &mut RunState) {
+    if left.node_updates.is_empty() && *root_db != st.direct.0 {
+        fail(st, "merging the overlay into the base does not yield the base with the commits applied", json!({}));
+    }
+}
+fn pks_coq(v: &[DbPartitionKey]) -> String {
+    coq_list(v.iter().map(pk_coq))
+}
+
+fn read_get<S: std::borrow::Borrow<Imd>>(overlay: &SubstateDatabaseOverlay<S, Imd>, st: &mut RunState, pk: &DbPartitionKey, sk: &Vec<u8>) {
+    let got = overlay.get_raw_substate_by_db_key(pk, &DbSortKey(sk.clone()));
+    let want = st.direct.get_raw_substate_by_db_key(pk, &DbSortKey(sk.clone()));
+    let want2 = st.replay.get(pk, sk);
+    if got != want || got != want2 {
+        fail(st, "get through the overlay differs from the database with the commits applied",
+            json!({"pk": pk_coq(pk), "sk": hex(sk), "overlay": got.as_ref().map(|v| hex(v)), "direct": want.as_ref().map(|v| hex(v)), "replay": want2.as_ref().map(|v| hex(v))}));
+    }
+    st.n_reads += 1;
+    st.ops.push(format!("OGet {} {} {}", pk_coq(pk), cb(sk), coq_option(got.map(|v| cb(&v)))));
+}
+fn read_list<S: std::borrow::Borrow<Imd>>(overlay: &SubstateDatabaseOverlay<S, Imd>, st: &mut RunState, pk: &DbPartitionKey, cur: &Option<Vec<u8>>) {
+    let got = collect_list(overlay, pk, cur);
+    let want = collect_list(&st.direct.0, pk, cur);
+    let want2 = st.replay.list(pk, cur);
+    if got != want || got != want2 {
+        fail(st, "listing through the overlay differs from the database with the commits applied",
+            json!({"pk": pk_coq(pk), "from": cur.as_ref().map(|k| hex(k)), "overlay": entries_coq(&got), "direct": entries_coq(&want), "replay": entries_coq(&want2)}));
+    }
+    st.n_reads += 1;
+    if !got.is_empty() {
+        st.n_lists_nonempty += 1;
+    }
+    st.ops.push(format!("OList {} {} {}", pk_coq(pk), cursor_coq(cur), entries_coq(&got)));
 }
 
 /// partitions of the root (through the overlay whose staging area is empty) with full listings
-fn dump_root(overlay: &Ov) -> Dump {
+fn dump_root<S: std::borrow::Borrow<Imd>>(overlay: &SubstateDatabaseOverlay<S, Imd>) -> Dump {
     overlay
         .list_partition_keys()
         .map(|pk| {
@@ -433,12 +534,12 @@ fn dump_root(overlay: &Ov) -> Dump {
 fn dump_coq(d: &Dump) -> String {
     coq_list(d.iter().map(|(pk, es)| format!("({}, {})", pk_coq(pk), entries_coq(es))))
 }
-fn check_dump(d: &Dump, direct: &InMemorySubstateDatabase, replay: &Replay, failed: &mut Failed) {
-    let want: Dump = direct.list_partition_keys().map(|pk| { let es = collect_list(direct, &pk, &None); (pk, es) }).collect();
+fn check_dump(d: &Dump, st: &mut RunState) {
+    let want: Dump = st.direct.list_partition_keys().map(|pk| { let es = collect_list(&st.direct.0, &pk, &None); (pk, es) }).collect();
     let want2: Vec<((Vec<u8>, u8), Vec<(Vec<u8>, Vec<u8>)>)> =
-        replay.parts.iter().map(|(k, p)| (k.clone(), p.iter().map(|(a, b)| (a.clone(), b.clone())).collect())).collect();
+        st.replay.parts.iter().map(|(k, p)| (k.clone(), p.iter().map(|(a, b)| (a.clone(), b.clone())).collect())).collect();
     let got2: Vec<((Vec<u8>, u8), Vec<(Vec<u8>, Vec<u8>)>)> = d.iter().map(|(pk, es)| ((pk.node_key.clone(), pk.partition_num), es.clone())).collect();
-    if (d != &want || got2 != want2) && failed.is_none() {
-        *failed = Some(("root after commit_overlay_into_root_store differs from the base with the commits applied".into(), json!({"root": dump_coq(d), "direct": dump_coq(&want)})));
+    if d != &want || got2 != want2 {
+        fail(st, "root after commit_overlay_into_root_store differs from the base with the commits applied", json!({"root": dump_coq(d), "direct": dump_coq(&want)}));
     }
 }
